@@ -1,12 +1,8 @@
 import Imdlv.Model.Summary
 import Imdlv.Model.Digest
+import Driver.Url
 namespace Driver.C07
 open Imdlv Imdlv.Load Imdlv.Summary
-
-def urlOk (s : Bytes) : Bool :=
-  -- `scheme://…` with an alphabetic scheme (the forms the harness generates; `Url::parse` itself is not modelled)
-  let scheme := s.takeWhile fun b => (97 ≤ b && b ≤ 122) || (65 ≤ b && b ≤ 90)
-  !scheme.isEmpty && (s.drop scheme.length).take 3 == [58, 47, 47]
 
 def ob (o : Option Bytes) : String := match o with | some b => hexOrDash b | none => "~"
 def on (o : Option Nat) : String := match o with | some n => toString n | none => "~"
@@ -23,16 +19,20 @@ def handle (args : List String) : String :=
     match bytesOfHex h with
     | none => "bad-op"
     | some b =>
-      match loadTorrent urlOk b with
-      | .outOfModel => "out-of-model"
-      | .error e => "err " ++ errName e
-      | .ok m span =>
-        let s := summary m b.length span
-        let tiers := if s.announceList.isEmpty then "." else joinWith ";" (s.announceList.map fun t => if t.isEmpty then "_" else joinWith "," (t.map hexOrDash))
-        s!"ok name={hexOrDash s.name} comment={ob s.comment} cdate={on s.creationDate} cby={ob s.createdBy} source={ob s.source} " ++
-        s!"ih={hexOfBytes (Digest.sha1 s.infoHashOf)} tsize={s.torrentSize} csize={s.contentSize} private={if s.priv then 1 else 0} " ++
-        s!"tracker={ob s.tracker} alist={tiers} uurl={ob s.updateUrl} nodes={hl s.dhtNodes} psize={s.pieceSize} pcount={s.pieceCount} " ++
-        s!"fcount={s.fileCount} files={hl s.files}"
+      let show1 := fun (x : Loaded) => match x with
+        | .outOfModel => "out-of-model"
+        | .error e => "err " ++ errName e
+        | .ok m span =>
+          let s := summary m b.length span
+          let tiers := if s.announceList.isEmpty then "." else joinWith ";" (s.announceList.map fun t => if t.isEmpty then "_" else joinWith "," (t.map hexOrDash))
+          s!"ok name={hexOrDash s.name} comment={ob s.comment} cdate={on s.creationDate} cby={ob s.createdBy} source={ob s.source} " ++
+          s!"ih={hexOfBytes (Digest.sha1 s.infoHashOf)} tsize={s.torrentSize} csize={s.contentSize} private={if s.priv then 1 else 0} " ++
+          s!"tracker={ob s.tracker} alist={tiers} uurl={ob s.updateUrl} nodes={hl s.dhtNodes} psize={s.pieceSize} pcount={s.pieceCount} " ++
+          s!"fcount={s.fileCount} files={hl s.files}"
+      -- bracket the unmodelled URL parser (see Driver.Url)
+      let a := show1 (loadTorrent Url.urlAny b)
+      let c := show1 (loadTorrent Url.urlNormal b)
+      if a == c then a else "out-of-model"
   | _ => "bad-op"
 
 end Driver.C07
